@@ -47,6 +47,8 @@ structure Facts where
   loadAnyReturnsOtherErrors : Bool
   /-- `Insert`/`Update`/`Delete`/`Commit`/`Filter`/`Next`: every storage call is followed by `if err != nil { return … }` -/
   statementErrorsPropagate : Bool
+  getRowReturnsLookupError : Bool
+  insertRejectsNullKey : Bool
   changesErrorsPropagate : Bool
   /-- `VirtualTable.Begin/Commit/Rollback` (vtable_common.go): snapshot by `Clone`, restored unconditionally by `Rollback`, dropped by `Commit` only on success -/
   beginClonesTree : Bool
@@ -84,6 +86,8 @@ structure Facts where
   vacuumOrder : List String
   /-- `DeleteHistoricVersions`: nodes are deleted before roots -/
   deleteOrder : List String
+  /-- `DeleteHistoricVersions` first removes the historic versions still listed under root/current/ -/
+  vacuumFinishesRetire : Bool
   /-- `getHistoricRootsAndNodes`: links reachable from the current tree and from kept versions are removed from the delete set -/
   vacuumKeepsReachable : Bool
   /-- `Vacuum` / `s3db_refresh`: refuse a table with uncommitted changes -/
